@@ -497,3 +497,147 @@ Proof.
     + apply ERR.
   - injection H as <- <- <-. apply ERR.
 Qed.
+
+(* ------------------------------------------------------------------------- *)
+(* 3. Server.Session / send / Remove, steps and histories                     *)
+
+(* Server.Session returns the session of the device asked for, or nothing *)
+Lemma server_session_own t d s : server_session t d = Some s -> t !! hash d = Some s /\ s_id s = d.
+Proof.
+  unfold server_session, server_session_g. destruct (id_empty d); [discriminate|].
+  destruct (lookup true t d) eqn:L; try discriminate. intros [= <-]. apply lookup_own. exact L.
+Qed.
+
+(* ... and it does find every registered device *)
+Lemma server_session_complete t k s : wf t -> t !! k = Some s -> server_session t (s_id s) = Some s.
+Proof.
+  intros W H. destruct (W _ _ H) as (Hk & NE & _).
+  unfold server_session, server_session_g. rewrite NE.
+  rewrite (lookup_own_intro t (s_id s) s); [reflexivity| |reflexivity]. rewrite Hk. exact H.
+Qed.
+
+Lemma server_session_none_iff t d :
+  id_empty d = false ->
+  (server_session t d = None <-> forall s, t !! hash d = Some s -> s_id s <> d).
+Proof.
+  intros NE. unfold server_session, server_session_g. rewrite NE. split.
+  - intros H s L E. rewrite (lookup_own_intro _ _ _ L E) in H. discriminate.
+  - intros H. destruct (lookup true t d) eqn:L; try reflexivity.
+    apply lookup_own in L as [L E]. exfalso. eapply H; eauto.
+Qed.
+
+Lemma server_send_spec t d pid job t' r :
+  server_send t d pid job = (t', r) -> wf t ->
+  wf t' /\ ids_mono t t' /\ (forall x, r = Some x -> x = d) /\
+  (forall k, k <> hash d -> t' !! k = t !! k).
+Proof.
+  unfold server_send, server_send_g. intros H W.
+  change (server_session_g true) with server_session in H.
+  destruct (server_session t d) as [s|] eqn:S.
+  - apply server_session_own in S as [L E]. injection H as <- <-.
+    destruct (W _ _ L) as (_ & _ & Q).
+    split; [|split; [|split]].
+    + eapply wf_update; eauto. unfold q_own. cbn. apply Forall_app. split; [exact Q|].
+      apply Forall_one. cbn. congruence.
+    + eapply ids_mono_update; eauto.
+    + intros x [= <-]. exact E.
+    + intros k Hk. unfold table in *. rewrite lookup_insert_ne; auto.
+  - injection H as <- <-. split; [exact W|]. split; [apply ids_mono_refl|]. split; [discriminate|reflexivity].
+Qed.
+
+Lemma server_remove_wf t d : wf t -> wf (server_remove t d).1.
+Proof.
+  intros W. unfold server_remove. destruct (t !! hash d); cbn; [apply wf_delete|]; exact W.
+Qed.
+
+(* after Remove(d) a lookup of d finds nothing; entries under other keys are not affected *)
+Lemma remove_forgets t d : server_session (server_remove t d).1 d = None.
+Proof.
+  unfold server_session, server_session_g. destruct (id_empty d); [reflexivity|].
+  rewrite lookup_free_intro; [reflexivity|].
+  unfold server_remove. destruct (t !! hash d) eqn:L; cbn; [|exact L].
+  unfold table in *. apply lookup_delete.
+Qed.
+Lemma remove_keeps_other_keys t d k : k <> hash d -> (server_remove t d).1 !! k = t !! k.
+Proof.
+  intros N. unfold server_remove. destruct (t !! hash d); cbn; [|reflexivity].
+  unfold table in *. apply lookup_delete_ne. auto.
+Qed.
+(* what is dropped sits under the hash of d (it IS d's session when hashes do not collide) *)
+Lemma remove_drops_slot t d t' e :
+  server_remove t d = (t', e) -> wf t -> Forall (fun x => exists s, x = EDrop s /\ hash s = hash d) e.
+Proof.
+  unfold server_remove. intros H W. destruct (t !! hash d) as [s|] eqn:L; injection H as <- <-.
+  - apply Forall_one. exists (s_id s). split; [reflexivity|]. apply (W _ _ L).
+  - constructor.
+Qed.
+
+Definition op_names (o : op) : list id :=
+  match o with OTalk p => names p | OTalkSub n _ => [l_dev n] | _ => [] end.
+Definition op_tags (o : op) : list Z := match o with OTalk p => p_tags p | _ => [] end.
+
+(* what a step may answer *)
+Definition ans_ok (o : op) (r : ans) : Prop :=
+  match o, r with
+  | OTalk p, ARegister d => d = p_dev p
+  | OTalk p, AReply _ l => Forall (out_ok (names p) (p_tags p)) l
+  | OTalk p, AErr _ => True
+  | OTalkSub n _, ASub k _ reg l =>
+      Forall (fun x => o_dev x = l_dev n) l /\ (forall d, reg = Some d -> d = l_dev n) /\
+      (forall d, k = Some d -> d = l_dev n)
+  | OTalkSub n _, AErr _ => True
+  | OSend d _ _, AFound x => forall y, x = Some y -> y = d
+  | OLookup d, AFound x => forall y, x = Some y -> y = d
+  | ORemove _, ABool _ => True
+  | OSessions, AList _ => True
+  | _, _ => False
+  end.
+
+Lemma step_spec a t o t' e r :
+  step a t o = (t', e, r) -> wf t ->
+  wf t' /\ Forall (eff_ok (op_names o) (op_tags o)) e /\ ans_ok o r.
+Proof.
+  unfold step, step_g. intros H W. destruct o as [p|n b|d pid job|d|d|].
+  - change (talk_g true) with talk in H. apply talk_spec in H as (W' & _ & F & R); [|exact W].
+    split; [exact W'|]. split; [exact F|]. cbn. destruct r; try contradiction; try exact R; try exact Logic.I.
+    apply R.
+  - change (talk_sub_g true) with talk_sub in H.
+    eapply talk_sub_spec with (N := [l_dev n]) (T := []) in H as (W' & _ & F & R); [|exact W|left; reflexivity].
+    split; [exact W'|]. split; [exact F|]. cbn. destruct r; try contradiction; try exact Logic.I.
+    destruct R as (R1 & R2 & R3). split; [exact R1|]. split; [|exact R3]. intros x Hx. apply (R2 x Hx).
+  - change (server_send_g true) with server_send in H.
+    destruct (server_send t d pid job) as [t1 r1] eqn:S. injection H as <- <- <-.
+    apply server_send_spec in S as (W' & _ & R & _); [|exact W].
+    split; [exact W'|]. split; [constructor|]. exact R.
+  - injection H as <- <- <-. split; [exact W|]. split; [constructor|]. cbn.
+    change (server_session_g true) with server_session.
+    destruct (server_session t d) as [s|] eqn:S; cbn; [|discriminate].
+    intros y [= <-]. apply (server_session_own _ _ _ S).
+  - destruct (server_remove t d) as [t1 e1] eqn:S. injection H as <- <- <-.
+    split; [change t1 with (t1, e1).1; rewrite <- S; apply server_remove_wf; exact W|].
+    split; [|exact Logic.I]. apply remove_drops_slot in S; [|exact W].
+    refine (List.Forall_impl _ _ S). intros x (s & -> & _). exact Logic.I.
+  - injection H as <- <- <-. split; [exact W|]. split; [constructor|exact Logic.I].
+Qed.
+
+(* induction over the history *)
+Lemma run_spec ops : forall a t t' l,
+  run a t ops = (t', l) -> wf t ->
+  wf t' /\ Forall2 (fun o er => Forall (eff_ok (op_names o) (op_tags o)) er.1 /\ ans_ok o er.2) ops l.
+Proof.
+  unfold run. induction ops as [|o ops IH]; intros a t t' l H W; cbn [run_g] in H.
+  - injection H as <- <-. split; [exact W|constructor].
+  - destruct (step_g true a t o) as [[t1 e1] r1] eqn:S. change (step_g true) with step in S.
+    destruct (run_g true (a + 1) t1 ops) as [t2 l2] eqn:R. injection H as <- <-.
+    apply step_spec in S as (W1 & F1 & A1); [|exact W].
+    apply IH in R as (W2 & F2); [|exact W1].
+    split; [exact W2|]. constructor; [split; assumption|exact F2].
+Qed.
+
+(* every table a server can reach from the empty one *)
+Definition reachable (t : table) : Prop := exists ops a, (run a ∅ ops).1 = t.
+Lemma reachable_wf t : reachable t -> wf t.
+Proof.
+  intros (ops & a & <-). destruct (run a ∅ ops) as [t' l] eqn:R.
+  apply run_spec in R as [W _]; [exact W|apply wf_empty].
+Qed.
